@@ -29,7 +29,7 @@ from props import c02_cse
 
 EXTRACTORS = ["Cse"]
 # further property file of C02: the model of the whole of stage2/cse.py preserves the solution set
-EXTRA_PROPS = ["C02Cse"]
+EXTRA_PROPS = ["C02Cse", "C02Cse2"]
 ANON = ".anonymous_ellipsis_axis"
 
 
